@@ -160,10 +160,15 @@ class Instance:
                 get_forward_ref_referencing_globals(new_type, self.type),
                 self.__dict__,
             )
-        new_instance = replace(self, **changes)
         if is_dataclass(self.origin_type):
-            new_instance.__owner_builder = self.__self_builder
-        elif "name" not in changes and "metadata" in self.__dict__:
+            # the type of a field must be resolved within its own class
+            changes["_Instance__owner_builder"] = self.__self_builder
+        new_instance = replace(self, **changes)
+        if (
+            not is_dataclass(self.origin_type)
+            and "name" not in changes
+            and "metadata" in self.__dict__
+        ):
             # an inner type of the same field: an overridden serialization
             # method that has been applied must not be applied again
             new_instance.__dict__["metadata"] = self.__dict__["metadata"]
